@@ -67,6 +67,8 @@ Definition decode_line (p : list stmt) (l : line) : list stmt :=
   | 4 :: _ => StPlace :: p
   | 5 :: _ :: ph :: ref :: np :: rest => StBind (zn ph) (zn ref) (map zn (firstn (zn np) rest)) :: p
   | 6 :: _ :: a :: b :: _ => StDep (zn a) (zn b) :: p
+  | 10 :: _ :: path :: ref :: _ => StAnchor (zn path) (zn ref) :: p
+  | 11 :: _ :: path :: ref :: rc :: _ => StClient (zn path) (zn ref) (negb (rc =? 0)) :: p
   | _ => p
   end.
 
